@@ -121,6 +121,8 @@ pub mod types {
           Shifted ::= INTEGER (-10..10, ...)
           Pick ::= CHOICE { num INTEGER (0..1000), txt IA5String (SIZE(0..5)), ..., flag BOOLEAN }
           ListA ::= SEQUENCE (SIZE(0..3)) OF INTEGER (0..15)
+          ListN ::= SEQUENCE OF NULL
+          ListF ::= SET OF INTEGER (7..7)
           Nest ::= SEQUENCE { head Color, items SEQUENCE OF Pick, opt TailExt OPTIONAL, n NULL, wide INTEGER (-32768..32767) }
         END"
     );
@@ -267,7 +269,15 @@ pub fn run_zoo(i: &Input) -> Result<(), String> {
                 }
             }
             3 => { let v = g.pick(); ref_pick(&v, &mut want); check(&v, &want, &mut w, &mut all)?; }
-            4 => { let v = ListA((0..g.n(4)).map(|_| g.n(16) as u8).collect()); ref_lista(&v, &mut want); check(&v, &want, &mut w, &mut all)?; }
+            4 => {
+                if g.b() { let v = ListA((0..g.n(4)).map(|_| g.n(16) as u8).collect()); ref_lista(&v, &mut want); check(&v, &want, &mut w, &mut all)?; }
+                else if g.b() {
+                    // elements of width zero: the encoding is the count alone (X.691 20.6), also at the very end of a message
+                    let v = ListN((0..g.n(40)).map(|_| Null).collect()); x::len_general(v.0.len() as u64, &mut want); check(&v, &want, &mut w, &mut all)?;
+                } else {
+                    let v = ListF((0..g.n(40)).map(|_| 7).collect()); x::len_general(v.0.len() as u64, &mut want); check(&v, &want, &mut w, &mut all)?;
+                }
+            }
             _ => {
                 let v = Nest { head: [Color::Red, Color::Green, Color::Blue, Color::Black][g.n(4) as usize], items: (0..g.n(4)).map(|_| g.pick()).collect(),
                                opt: if g.b() { Some(g.tailext()) } else { None }, n: Null, wide: [0i64, -1, 32767, -32768, 255, -256][g.n(6) as usize] as _ };
